@@ -40,14 +40,14 @@ def signature(lines):
     return "not_linearizable" + ("[" + ",".join(sorted(odd)) + "]" if odd else "")
 
 
-def run(prop, tier, seed, plan, replay_dir=None, merge=False):
+def run(prop, tier, seed, plan, replay_dir=None, merge=False, full=False):
     """merge=True: the property's main evidence file exists already (written by the scenario engine); add to it"""
     t0 = time.time()
     tmp = engines.scratch()
     try:
         stress = engines.build("inostress", race=True)
         nprog = int((200 if tier == "quick" else 6000) * float(os.environ.get("VERIF_SCALE", "1")))
-        if merge:
+        if merge and not full:
             nprog = nprog // 2
         seeds = [seed] if tier == "quick" else [seed, seed + 1, seed + 2]
         if replay_dir:
